@@ -301,7 +301,7 @@ def _corrupt(v):
 
 def negative_control(ev, scen_keys, salt, skip_fields=()):
     """A copy of the event with one observed field corrupted, or None."""
-    fields = sorted(k for k in ev if k not in scen_keys and k not in ("st", "pan") and k not in skip_fields)
+    fields = sorted(k for k in ev if k not in scen_keys and k not in ("st", "pan", "cov") and k not in skip_fields)
     if not fields:
         return None
     h = int(hashlib.sha256(f"{salt}".encode()).hexdigest(), 16)
